@@ -60,7 +60,9 @@ def _dup_causes(case):
 def _dup_match(case, clause, cause):
     if case.get("path") != "psyir":
         return False
-    if clause not in ("SameLength", "DataFlow"):
+    # the repeat makes the lists differ in length and shifts every position
+    # behind it (wrong object, possibly of another type)
+    if clause not in ("SameLength", "DataFlow", "TypeAgree"):
         return False
     causes = _dup_causes(case)
     return bool(causes) and any(cause in why for why in causes)
